@@ -99,7 +99,8 @@ theorem getParam_bind_ne (env : Env) {x n : Str} (v : Val) (h : x ≠ n) :
     (env.bind x v).getParam n = env.getParam n := by
   simp [Env.getParam, Env.bind, lookup, h]
 
-theorem noProgs_bind {env : Env} (h : NoProgs env) (x : Str) (v : Val) : NoProgs (env.bind x v) := h
+theorem noProgs_bind {env : Env} (h : NoProgs env) (x : Str) (v : Val) : NoProgs (env.bind x v) :=
+  ⟨h.prog, h.untracked⟩
 
 theorem plainParams_bind {env : Env} (h : PlainParams env) {x : Str} {v : Val} (hv : Plain v) :
     PlainParams (env.bind x v) := by
